@@ -309,6 +309,8 @@ type Rule struct {
 	// the second invocation on). A callback runs once per component and start, so this only
 	// shows when the container invokes a callback more often than it should.
 	Fresh bool `json:"fresh,omitempty"`
+	// Tolerant (lookup): the processor copes with an error of the look-up and carries on
+	Tolerant bool `json:"tolerant,omitempty"`
 }
 
 type Scanner struct {
